@@ -19,9 +19,27 @@ C07 — no input can crash the host; errors are returned and leave the engine us
                               `rollback_metadata()` on failure) followed by `Engine::raw_program_to_executable`
                               (`symbol_map.len()` checkpoint, `roll_back` + `rollback_metadata()` on failure).
 
+  * `callbackArity`         — the call paths that push a frame BEFORE it is counted: `call_with_one_arg` /
+                              `call_with_two_args` / `call_with_args` (how native higher-order procedures — transducers,
+                              reducers — call a closure) push the callee's frame and the arguments and only then check the
+                              arity (`adjust_stack_for_multi_arity(..)?`); `pop_count` is never incremented for that frame
+                              (the nested instance `call_with_instructions_and_reset_state` that would run the callee starts
+                              its own count at 1).  The instruction models the failing check: frame pushed, argument pushed,
+                              `Err(ArityMismatch)`.  (A callback of the right arity is, for the counters, a value or a
+                              `fail`: the nested instance pops what it pushed before it returns; an arity error of a
+                              callback INSIDE a nested instance is consumed by the nested unwind loop, which leaves the
+                              nested callee's frame — uncounted in the enclosing instance — behind: the same state.
+                              `handle_function_call_closure*`, `call_with_exception_handler`, `call/cc` count the frame
+                              right after the push with nothing fallible in between: GenUnwind.countedPaths.)
+                              `Thread.lost` is a ghost counter of these events.
+
+The order of the `pop_count == 0` test and the decrement in the unwind loop is read from the source
+(`Gen.unwindTestFirst`, translate/c07_unwind.py).
+
 Programs are trees (`Code`): the model has no instruction pointer; a frame keeps the caller's remaining code instead
 of `(ip, instructions)`.
 -/
+import SteelVerif.C07.GenUnwind
 namespace SteelVerif.C07
 
 abbrev Val := Nat
@@ -37,6 +55,8 @@ inductive Code where
                                                      -- attachment; `isClosure = false`: `h` is some other value
   | callcc (body : List Code)                        -- frame with an open continuation mark
   | fail (e : Val)                                   -- a primitive returns `Err(e)`
+  | callbackArity                                    -- a native higher-order procedure calls a closure that takes a
+                                                     -- different number of arguments (`call_with_one_arg` & co.)
 
 structure Frame where
   sp : Nat                                           -- `StackFrame.sp`
@@ -52,11 +72,16 @@ structure Thread where
   popCount : Nat := 1
   globals : List (Nat × Val) := []                   -- definitions executed so far, oldest first
   closed : Nat := 0                                  -- continuation marks closed so far (ghost counter)
+  lost : Nat := 0                                    -- frames pushed without being counted whose call then failed
+                                                     -- (`callbackArity`), over the life of the thread (ghost counter)
 
 def top (s : List Val) : Val := s.getLast?.getD 0
 
 /-- the `TypeMismatch` raised for an exception handler that is not a function -/
 def handlerTypeError : Val := 2989
+
+/-- the `ArityMismatch` raised by `adjust_stack_for_multi_arity` -/
+def arityError : Val := 2990
 
 inductive StepOut where
   | next (code : List Code) (t : Thread)
@@ -66,6 +91,11 @@ inductive StepOut where
 
 def mkFrame (t : Thread) (h : Option (Bool × List Code)) (mark : Bool) (ret : List Code) : Frame :=
   { sp := t.stack.length, handler := h, mark := mark, ret := ret }
+
+/-- is the `callbackArity` window open in the source: some call path pushes a frame without counting it, can fail
+after the push and does not take the frame back (regenerated by translate/c07_unwind.py; closed since /repo commit
+27b7e09f, which was made for finding K07ai) -/
+def windowOpen : Bool := Gen.uncountedPaths.any (fun p => p.2.1 && !p.2.2)
 
 /-- one instruction -/
 def vmStep (code : List Code) (t : Thread) : StepOut :=
@@ -98,6 +128,14 @@ def vmStep (code : List Code) (t : Thread) : StepOut :=
   | .callcc body :: c =>
     .next body { t with frames := mkFrame t none true c :: t.frames, popCount := t.popCount + 1 }
   | .fail e :: _ => .raise e t
+  | .callbackArity :: _ =>
+    -- `stack_frames.push(StackFrame::new(prev_length, closure, 0, ..)); stack.push(arg);
+    --  adjust_stack_for_multi_arity(closure, 1, &mut 0)?` — the frame stays, `pop_count` was not touched
+    if windowOpen then
+      .raise arityError { t with frames := mkFrame t none false [] :: t.frames, stack := t.stack ++ [0], lost := t.lost + 1 }
+    else
+      -- the frame and the argument are taken back before the error is returned (`discard_uncounted_frame`)
+      .raise arityError t
 
 inductive VmOut where
   | ok (v : Val) (t : Thread)
@@ -119,11 +157,14 @@ inductive UnwindOut where
   | resume (code : List Code) (t : Thread)           -- `continue 'outer`: a handler takes over
   | fail (e : Val) (t : Thread)                      -- `return Err(e)`
 
-/-- the `while let Some(last) = stack_frames.pop()` loop; `fs` = the frames not yet popped -/
+/-- the `while let Some(last) = stack_frames.pop()` loop; `fs` = the frames not yet popped.  The order of the
+`pop_count == 0` test and `pop_count -= 1` is the one found in the source (`Gen.unwindTestFirst`). -/
 def unwind (e : Val) (t : Thread) : List Frame → UnwindOut
   | [] => .fail e { t with frames := [], stack := [] }                       -- `self.stack.clear(); return Err(e)`
   | f :: rest =>
-    if t.popCount = 0 then .fail e { t with frames := rest }                 -- early `return Err(e)`: nothing cleared
+    -- early `return Err(e)`: nothing cleared
+    if Gen.unwindTestFirst = true ∧ t.popCount = 0 then .fail e { t with frames := rest }
+    else if Gen.unwindTestFirst = false ∧ t.popCount - 1 = 0 then .fail e { t with frames := rest, popCount := 0 }
     else
       let t1 := { t with popCount := t.popCount - 1 }
       let t2 := if f.mark then { t1 with stack := t1.stack.take f.sp, closed := t1.closed + 1 } else t1
